@@ -270,6 +270,7 @@ pub fn check(args: &[String]) -> i32 {
     let mut violations = vec![];
     let mut unlisted = 0u64;
     let mut worker_wall = 0f64;
+    let mut max_steps = 0u64;
     for (out, d) in &docs {
         let n = d["runs"].as_u64().unwrap_or(0);
         evaluations += n;
@@ -286,6 +287,7 @@ pub fn check(args: &[String]) -> i32 {
         merge_map(&mut known_hits, &d["known_hits"]);
         sim_time_ns += d["sim_time_ns"].as_str().and_then(|s| s.parse::<u128>().ok()).unwrap_or(0);
         worker_wall += d["wall_s"].as_f64().unwrap_or(0.0);
+        max_steps = max_steps.max(d["max_steps_in_a_run"].as_u64().unwrap_or(0));
         unlisted += d["unlisted_violations"].as_u64().unwrap_or(0);
         if let Some(a) = d["samples"].as_array() {
             for s in a {
@@ -358,6 +360,11 @@ pub fn check(args: &[String]) -> i32 {
         ],
     });
     coverage["operations_per_kind"] = to_json(&op_kinds);
+    coverage["bounded_liveness"] = json!({
+        "longest_run_in_scheduler_steps": max_steps,
+        "step_budget": "2000 x operations + 50000 (exceeding it is reported as livelock)",
+        "statement": "every run finished, and after the last fault of a run every later operation equalled its reference"
+    });
     coverage["statement_level_scheduling_points_built_in"] = json!(stmt_points_built);
     // Which convenience functions exist in the source tree right now, and
     // were all of them exercised?
